@@ -351,8 +351,11 @@ func loadFilters(w *World) (map[string]bs.BloomFilters, map[string]bs.BloomFilte
 
 // sweepCase: one tokenizer x one layout, every atomic condition.
 func sweepCase(tk namedTok, lay layout, o sweepOpts) CaseResult {
+	return sweepCaseRows(tk, lay, o, alphaRows())
+}
+
+func sweepCaseRows(tk namedTok, lay layout, o sweepOpts, rows []map[string]any) CaseResult {
 	var res CaseResult
-	rows := alphaRows()
 	if n := layoutLimit[lay.name]; n > 0 && len(rows) > n {
 		rows = rows[:n]
 	}
